@@ -256,7 +256,7 @@ class ZS:
                 self.interned[k] = (z3.Const(f'pyobj!{len(self.interned)}', self.obj), len(self.interned), v)
             c, n, _ = self.interned[k]
             if self.on_intern is not None:
-                self.on_intern(z3.Function('pyobj_id', self.obj, z3.IntSort())(c) == n)
+                self.on_intern(z3.Function('pyobj_id', self.obj, z3.IntSort())(c) == n, c, v)
             return c
         raise TypeError(f'cannot lift {v!r} to {zsort}')
 
